@@ -537,7 +537,7 @@ func C07(c *core.Ctx) {
 func c07Hooks(c *core.Ctx) {
 	var cases []*b1.Case
 	for i, h := range hookEnumerate(c) {
-		if h.Cfg.Kind == "twoResults" || ((h.Cfg.Kind == "ok" || h.Cfg.Kind == "imported") && h.Cfg.HErr) {
+		if h.Cfg.Kind == "twoResults" || ((h.Cfg.Kind == "ok" || h.Cfg.Kind == "imported" || h.Cfg.Kind == "funcVar") && h.Cfg.HErr) {
 			cases = append(cases, hookConcretise(i, h))
 		}
 	}
